@@ -172,7 +172,7 @@ class DecimalConverter(NullConverter):
         xml_value = str(py_value)
         if 'E' in xml_value or 'e' in xml_value:
             # no exp form allowed in xml
-            return cls._float_to_xml(float(py_value))
+            return format(py_value, 'f')
         return xml_value
 
     @classmethod
@@ -189,7 +189,8 @@ class DecimalConverter(NullConverter):
             # All ·minimally conforming· processors ·must· support decimal numbers with a minimum of
             # 18 decimal digits (i.e., with a ·totalDigits· of 18).
             head, tail = xml_value.split('.')
-            tail = tail[:18 - len(head)]
+            # a sign and a lone zero before the decimal point are no digits of the value
+            tail = tail[:18 - len(head.lstrip('+-').lstrip('0'))]
             if tail:
                 xml_value = f'{head}.{tail}'
             else:
